@@ -403,6 +403,63 @@ func init() {
 		return Iface{}
 	})
 
+	// ----- gluon async.QueuedChannel: the forwarding goroutine is not started; Enqueue delivers straight into the
+	// (unbounded) channel, i.e. the queue is modelled as the FIFO, loss-free pipe it is specified to be -----
+	reg("github.com/ProtonMail/gluon/async.GoAnnotated", func(e *Exec, c *frame, fn *ssa.Function, a []Value) Value {
+		e.intrHit["async.GoAnnotated-not-started"]++
+		return nil
+	})
+	reg("(*github.com/ProtonMail/gluon/async.QueuedChannel[T]).Enqueue", func(e *Exec, c *frame, fn *ssa.Function, a []Value) Value {
+		e.intrHit["QueuedChannel.Enqueue-direct"]++
+		q := (*e.deref(c, a[0])).(Struct)
+		if closed := q[4].(Struct)[0].(Sc); closed.T != nil || closed.C != 0 {
+			return mkBool(false)
+		}
+		ch := q[0].(*Chan)
+		old := ch.buf
+		e.journalUndo(func() { ch.buf = old })
+		nb := append([]Value(nil), ch.buf...)
+		for _, it := range a[1].(Slice) {
+			nb = append(nb, it)
+		}
+		ch.buf = nb
+		return mkBool(true)
+	})
+	// time.After inside a select that also waits for data: the timer case is listed last and fires only when no other
+	// case is ready (quiescence), which is how the harnesses use it
+	reg("time.After", func(e *Exec, c *frame, fn *ssa.Function, a []Value) Value {
+		e.intrHit["time.After-fires-at-quiescence"]++
+		return &Chan{closed: true}
+	})
+
+	// ----- sort.Slice / sort.SliceStable (reflection based in the library): executed as a stable insertion sort that
+	// calls the real less closure; for sort.Slice this is one of the orders the library may produce -----
+	sortSlice := func(e *Exec, c *frame, fn *ssa.Function, a []Value) Value {
+		e.intrHit["sort.Slice-insertion-sort"]++
+		it, ok := a[0].(Iface)
+		if !ok || it.t == nil {
+			e.unsupported("sort.Slice of a non-slice")
+		}
+		sl, ok := it.v.(Slice)
+		if !ok {
+			e.unsupported("sort.Slice of a non-slice")
+		}
+		for i := 1; i < len(sl); i++ {
+			for j := i; j > 0; j-- {
+				r := e.call(c, token.NoPos, a[1], []Value{mkInt(int64(j)), mkInt(int64(j - 1))})
+				if !e.branch(r.(Sc)) {
+					break
+				}
+				x, y := sl[j], sl[j-1]
+				e.setCell(&sl[j], y)
+				e.setCell(&sl[j-1], x)
+			}
+		}
+		return nil
+	}
+	reg("sort.Slice", sortSlice)
+	reg("sort.SliceStable", sortSlice)
+
 	// ----- database/sql row iteration: "no rows" (statement-contract harness) -----
 	reg("(*database/sql.Rows).Next", func(e *Exec, c *frame, fn *ssa.Function, a []Value) Value { return mkBool(false) })
 	reg("(*database/sql.Rows).Close", func(e *Exec, c *frame, fn *ssa.Function, a []Value) Value { return Iface{} })
